@@ -346,9 +346,14 @@ def _run_unit(u, ctx):
 def run_check(pid, units, tier, seed, level, notes=None, checker_cmd=None, assumptions=()):
     t0 = time.time()
     ctx = Ctx(pid, tier, seed)
-    os.makedirs(os.path.join(VERIF, "evidence"), exist_ok=True)
+    # evidence describes runs against /repo itself; a run against a scratch copy (PYVC_REPO set by tools/seed_run.sh, tools/mutate.sh)
+    # writes its evidence next to that copy instead
+    from pyvc import source as _source
+    ev_dir = os.path.join(VERIF, "evidence") if os.path.realpath(_source.REPO) == os.path.realpath("/repo") \
+        else os.path.join(_source.REPO, ".verif-evidence")
+    os.makedirs(ev_dir, exist_ok=True)
     os.makedirs(os.path.join(VERIF, "replays"), exist_ok=True)
-    ev_path = os.path.join(VERIF, "evidence", f"{pid}.json")
+    ev_path = os.path.join(ev_dir, f"{pid}.json")
     for old in os.listdir(os.path.join(VERIF, "replays")):
         if old.startswith(pid + "-"):
             os.unlink(os.path.join(VERIF, "replays", old))
